@@ -2178,6 +2178,8 @@ impl Kanata {
         self.layout.b().queue.is_empty()
             && zippy_is_idle()
             && self.layout.b().waiting.is_none()
+            // Concurrent tap-holds beyond the first wait here; their timeouts only run in ticks.
+            && self.layout.b().extra_waiting.is_empty()
             && self.layout.b().last_press_tracker.tap_hold_timeout == 0
             && (self.layout.b().oneshot.timeout == 0 || self.layout.b().oneshot.keys.is_empty())
             // The rapid-event-delay pause after a tap-hold/chord/one-shot decision only counts
